@@ -439,6 +439,27 @@ PROPS["C12"]["claim"] += (" REGENERATED ORCHESTRATION: determineCipherSuite (wit
                           "indices asked for (Proofs/GenOrch/DetermineCipherSuite.lean, RetrieveSupportedCipherSuites.lean).")
 PROPS["C12"]["proofs"] = PROPS["C12"]["proofs"] + GENORCH_DETERMINE + GENORCH_RETRIEVE
 GENORCH_SDR = ["Bmc.Proofs.GenOrch.WalkSDRs", "Bmc.Proofs.GenOrch.RetrieveSDRRepository"]
+# SESSION ESTABLISHMENT regenerated (tools/decgen -hs -> lean/Bmc/Gen/Hs.lean: newV2Session and the wrappers openSession / rakpMessage1 /
+# rakpMessage3, statement by statement) and proved equal to the handshake model (lean/Bmc/Proofs/GenHs/*.lean): C01, C02, C12.
+GENHS = ["Bmc.Proofs.GenHs.TranslatedOk", "Bmc.Proofs.GenHs.Model", "Bmc.Proofs.GenHs.Wrappers", "Bmc.Proofs.GenHs.NewV2Session",
+         "Bmc.Proofs.GenHs.Examples"]
+_GENHS_CLAIM = (" REGENERATED SESSION ESTABLISHMENT: newV2Session and the wrappers openSession / rakpMessage1 / rakpMessage3 are RE-TRANSLATED from the Go source on every "
+                "run (tools/decgen -hs -> Gen/Hs.lean: buildAndSendPayload, rand.Read and the keyed hash as PARAMETERS, determineCipherSuite and the key formulas as the "
+                "regenerated definitions of Gen/Orch.lean / Gen/Keys.lean) and proved, for every option value, every answer function over any state and every draw, to return "
+                "what the hand model's composition of stepOpen / stepRakp2 / stepRakp4 returns over the same answers - result and final state, i.e. which requests are made in "
+                "which order (Proofs/GenHs/NewV2Session.lean: newV2Session_gen_eq; Proofs/GenHs/Model.lean: that composition over a reply script IS Proto.newSession): %s")
+for _p, _what in (("C01", "the session carries LocalID / RemoteID of the Open Session RESPONSE, the confirmed algorithms, the SIK under K_G (the password when K_G is empty), "
+                          "the integrity hasher keyed with K1 and the AES key = first 16 bytes of K2, which is what the in-session model starts from."),
+                  ("C02", "the RAKP 2 AuthCode is checked BEFORE RAKP 3 is built, ErrIncorrectPassword is returned exactly on its mismatch, the RAKP 4 ICV is checked under the SIK, "
+                          "tag / status of every response are checked by the wrappers, and nothing is sent after a failed check."),
+                  ("C12", "the Open Session Request carries SessionID 1, the caller's privilege level and exactly the algorithms determineCipherSuite proposed, and the response "
+                          "must confirm exactly the PROPOSAL (compared with the proposal, not with itself); without a proposal nothing is sent.")):
+    PROPS[_p]["claim"] += _GENHS_CLAIM % _what
+    PROPS[_p]["proofs"] = PROPS[_p]["proofs"] + GENHS
+    PROPS[_p]["note"] += ("; Gen/Hs.lean takes buildAndSendPayload, crypto/rand.Read and the hash.Hash contract (hash_Sum := Lemmas/GenKeys.lean: mac) as parameters, takes "
+                          "ipmi.NewAES128CBC not to fail on a 16-byte key, and does not model the gopacket decoder, the shared connection and the timeout of the new session")
+    PROPS[_p]["modelled"] = PROPS[_p]["modelled"] + ["session establishment functions tools/decgen -hs gives up on (Gen/Hs.lean: gaveUp, with reasons; none at delivery) stay hand models tied by correspondence only"]
+GENORCH_SDR = ["Bmc.Proofs.GenOrch.TranslatedOk", "Bmc.Proofs.GenOrch.WalkSDRs", "Bmc.Proofs.GenOrch.RetrieveSDRRepository"]
 _GENORCH_SDR_CLAIM = (" REGENERATED ORCHESTRATION: walkSDRs and RetrieveSDRRepository are RE-TRANSLATED from the Go source on every run (tools/decgen -orch -> Gen/Orch.lean: "
                       "SendCommand / ReserveSDRRepository / GetSDRRepositoryInfo as applications of the BMC's answer functions, the reused GetSDRCmd as the cell of the state whose "
                       "response part every command replaces, gopacket.NewPacket(.., Lazy).Layer(..) as the regenerated SDR / FullSensorRecord decoders of Gen/Dec.lean on a copy "
@@ -449,6 +470,62 @@ _GENORCH_SDR_CLAIM = (" REGENERATED ORCHESTRATION: walkSDRs and RetrieveSDRRepos
 for _p in ("C14", "C17"):
     PROPS[_p]["claim"] += _GENORCH_SDR_CLAIM
     PROPS[_p]["proofs"] = PROPS[_p]["proofs"] + GENORCH_SDR
+
+# The three RETRY LOOPS and the two SendCommand wrappers regenerated by tools/loopgen -> lean/Bmc/Gen/Loops.lean and proved equal to the
+# hand models of the send loops (lean/Bmc/Proofs/GenLoops/*.lean): in-session loop -> C03 C04 C09 C10 C11 C18; session-less -> C09 C10
+# C11 C18; payload loop -> C02 C10.
+GENLOOPS_SESSION = ["Bmc.Proofs.GenLoops.BuildAndSend"]
+GENLOOPS_SESSIONLESS = ["Bmc.Proofs.GenLoops.BuildAndSendCommand"]
+GENLOOPS_PAYLOAD = ["Bmc.Proofs.GenLoops.BuildAndSendPayload"]
+_GENLOOPS_HOW = ("(tools/loopgen -> Gen/Loops.lean: every statement of the function and of its retry closure over a state monad; gopacket.SerializeLayers, transport.Send, the "
+                 "connection's decoder with InnermostEquals, the back-off's verdict between attempts and the response layer's DecodeFromBytes are PARAMETERS, the Prometheus calls "
+                 "an event log, backoff.Retry the definition GoLoops.backoffRetry written after backoff v4.3.0; any other write to the receiver, any other write of the sequence "
+                 "counter than ++, any other use of the transport, the buffer or the context is a give-up)")
+_GENLOOPS_SESSION_CLAIM = {
+    "C03": "every datagram handed to the transport was serialised from layer structs rebuilt in that very attempt with Encrypted and Authenticated set, the BMC's session ID, the "
+           "session's integrity algorithm and confidentiality layer, i.e. is Proto.attempt's datagram",
+    "C04": "the three acceptance checks of the closure - authenticated when an integrity algorithm was negotiated, addressed to this session, a response to this very operation - "
+           "are, in this order and before anything is counted or returned, the model's accept",
+    "C09": "the sequence number written into the wrapper is the counter + 1, the counter is incremented exactly once per successful serialisation and nowhere else, so the datagrams "
+           "carry sendLoop's numbers and the final counter is sendLoop's",
+    "C10": "a transport error and a serialisation error are terminal, every other failure (undecodable, not a message, unacceptable, temporary code) re-runs the closure, which "
+           "rebuilds and re-serialises the same request, until the context ends - exactly sendLoop's transmissions and result",
+    "C11": "the result is nil only after the regenerated isResponseTo accepted the decoded message, and the completion code and payload left in the message layer are those of that "
+           "reply",
+    "C18": "the log of Prometheus calls replayed on the counters is Proto.Metrics.loop / command on attOf of the same script (retries at the head of every run of the closure after "
+           "the first, responses for the code of every accepted reply, attempts and failures in SendCommand) for both ways the caller's context can end",
+}
+for _p, _what in _GENLOOPS_SESSION_CLAIM.items():
+    PROPS[_p]["claim"] += (" REGENERATED RETRY LOOP: V2Session.buildAndSend (with its closure) and V2Session.SendCommand are RE-TRANSLATED from v2session.go on every run " + _GENLOOPS_HOW +
+                           " and, with the parameters instantiated by the hand model's own pieces, proved to return what Proto.sendLoop returns for every command, session state, "
+                           "non-empty script and IV list (Proofs/GenLoops/BuildAndSend.lean: V2Session_buildAndSend_gen_eq / _events_eq, V2Session_SendCommand_gen_eq / _events_eq): " + _what + ".")
+    PROPS[_p]["proofs"] = PROPS[_p]["proofs"] + [m for m in GENLOOPS_SESSION if m not in PROPS[_p]["proofs"]]
+_GENLOOPS_SESSIONLESS_CLAIM = {
+    "C09": "buildAndSendCommand and its closure never touch AuthenticatedSequenceNumbers.Inbound",
+    "C10": "the request is serialised once, the very same buffer is handed to the transport on every attempt, lost replies and everything that is not a final answer are retried "
+           "until the context ends - slSend's transmissions and result, for EVERY script",
+    "C11": "the result is nil only after the regenerated isResponseTo accepted the decoded message, and code and payload are that reply's",
+    "C18": "the log replayed on the counters is Proto.Metrics.loop false / command on the attempts of the script (slAttOf)",
+}
+for _p, _what in _GENLOOPS_SESSIONLESS_CLAIM.items():
+    PROPS[_p]["claim"] += (" SESSION-LESS: V2Sessionless.buildAndSendCommand (with its closure) and V2Sessionless.SendCommand are re-translated the same way and proved equal to Proto.slSend "
+                           "(Proofs/GenLoops/BuildAndSendCommand.lean: V2Sessionless_buildAndSendCommand_gen_eq / _events_eq, V2Sessionless_SendCommand_gen_eq / _events_eq): " + _what + ".")
+    PROPS[_p]["proofs"] = PROPS[_p]["proofs"] + [m for m in GENLOOPS_SESSIONLESS if m not in PROPS[_p]["proofs"]]
+_GENLOOPS_PAYLOAD_CLAIM = {
+    "C02": "the bytes handed to the response layer of openSession / rakpMessage1 / rakpMessage3 are the payload of a reply that decoded down to the session wrapper and nothing else "
+           "- what Proto.exchange returns",
+    "C10": "the setup datagram is serialised once and retransmitted unchanged after every lost or undecodable reply until the context ends - (exchange script).1 copies of setupDatagram",
+}
+for _p, _what in _GENLOOPS_PAYLOAD_CLAIM.items():
+    PROPS[_p]["claim"] += ((" REGENERATED RETRY LOOP: " if _p == "C02" else " SESSION SETUP: ") + "V2Sessionless.buildAndSendPayload (with its closure) is RE-TRANSLATED from v2sessionless.go on every run " +
+                           (_GENLOOPS_HOW + " " if _p == "C02" else "") + "and proved equal to Proto.exchange for every payload type, payload and script "
+                           "(Proofs/GenLoops/BuildAndSendPayload.lean: V2Sessionless_buildAndSendPayload_gen_eq): " + _what + ".")
+    PROPS[_p]["proofs"] = PROPS[_p]["proofs"] + [m for m in GENLOOPS_PAYLOAD if m not in PROPS[_p]["proofs"]]
+for _p in ("C02", "C03", "C04", "C09", "C10", "C11", "C18"):
+    PROPS[_p]["modelled"] = PROPS[_p]["modelled"] + ["regenerated retry loops (Gen/Loops.lean): the methods of the ipmi.Command / ipmi.Payload parameter are taken to be getters; "
+                                                     "interface values are opaque tokens; deadlines and waiting are not modelled (the surroundings decide when the context is done); "
+                                                     "an already-expired context still costs buildAndSend one sequence number (V2Session_buildAndSend_expired_context) - the hand model "
+                                                     "sendLoop does not show this, its equality is for non-empty scripts"]
 
 # The regenerated serialisers (tools/encgen -> lean/Bmc/Gen/Enc.lean) and their equality with the hand encoder models
 # (lean/Bmc/Proofs/GenEnc.lean) support C06 and C08 alike.
